@@ -1,4 +1,5 @@
 import AwsVerif.Proofs.C15.Live
+import AwsVerif.Proofs.C15.Valid
 /-!
 C15 — ring buffer never hands out overlapping memory, in every interleaving.
 
@@ -88,7 +89,28 @@ theorem c15_full_again (N : Nat) (as : List Act) (hN : 1 ≤ N)
     rw [hr.1]; simp
   exact c15_empty_succeeds N _ 0 N hn (by rw [hr.2]; exact hp) hN (Nat.le_refl _)
 
+/-- [A] The library's own validity predicate `aws_ring_buffer_is_valid` — `AwsVerif.Gen.Ring.isValid`,
+translated on every run from `include/aws/common/ring_buffer.inl` (with `aws_ring_buffer_check_atomic_ptr`)
+by `gen/ring_gen.py` — is true in every reachable state of every interleaving, wherever the ring's storage
+lies (`base ≠ NULL`; `head`/`tail` are `base +` the model's offsets, `allocation_end = base + N`): both
+positions are inside `[allocation, allocation_end]` (the one-past-the-end position included, which a grant
+running to the end of the storage reaches) and `head` at the start forces `tail` there too.  This is what
+a DEBUG_BUILD asserts before and after every ring-buffer call. -/
+theorem c15_is_valid_holds (N : Nat) (as : List Act) (self base alloc : Nat)
+    (h1 : self ≠ 0) (h2 : base ≠ 0) (h3 : alloc ≠ 0) :
+    AwsVerif.Gen.Ring.isValid (rbOf (run (Sys.init N) as).ring self base alloc) = true :=
+  isValid_of_shape (reach_inv N as).1 h1 h2 h3
+
 /-! ### Non-vacuity: the hypotheses are met by non-trivial reachable states -/
+
+/-- a reachable state with `head` one past the end of the storage (full-capacity grant on an empty ring), and
+after its release `tail` there too: the boundary the validity predicate must admit -/
+example :
+    (run (Sys.init 8) [.loadTail (.exact 8), .complete]).ring.head = 8 ∧
+    (run (Sys.init 8) [.loadTail (.exact 8), .complete, .release]).ring.tail = 8 ∧
+    AwsVerif.Gen.Ring.isValid (rbOf (run (Sys.init 8) [.loadTail (.exact 8), .complete, .release]).ring 1 16 1) = true := by
+  decide
+
 
 /-- a wrapped state with two buffers outstanding and a stale tail snapshot in flight is reachable -/
 example :
